@@ -3,6 +3,13 @@ package main
 // Registry of harnesses per property.
 
 var checks = map[string][]HarnessSpec{
+	"C08": {
+		{Name: "verifC08Raw", Pkg: ".", Labels: []string{"newconn-ok", "newconn-error", "reads-done"}},
+		{Name: "verifC08Ext", Pkg: ".", Labels: []string{"newconn-ok", "newconn-error"}},
+		{Name: "verifC08ReadArmed", Pkg: ".", Labels: []string{"armed"}},
+		{Name: "verifC08WriteArmed", Pkg: ".", Labels: []string{"writes-done"}},
+		{Name: "verifC08AroundECH", Pkg: ".", Labels: []string{"newconn-ok", "newconn-error"}},
+	},
 	"SMOKE": {
 		{Name: "verifSmoke", Pkg: "."},
 	},
